@@ -428,7 +428,7 @@ package pubsub
 // GossipSubRouter.HandleRPC: control messages are handed to the five handlers, which are each
 // proved panic-free under the decoded-RPC assumption (repeated fields hold no nil elements).
 //@ func (*GossipSubRouter).HandleRPC
-//@   property C12
+//@   property C12 C07 C08 C17
 //@   safe
 //@   requires wf: wfGS(gs) && rpc != nil && gs.extensions != nil && sepMesh(gs) && sepBackoff(gs) && validBackoffParams(gs) && gs.mcache != nil && mcRep(gs.mcache) &&
 //@        gs.peerhave != nil && gs.iasked != nil && gs.peerhave != gs.iasked && gs.params.MaxIHaveLength >= 0 && gs.peerdontwant != nil && gs.unwanted != nil && gs.params.MaxIDontWantLength >= 0 && gs.params.PrunePeers >= 0 && gs.peers != nil && gs.p.peers != nil && gs.control != nil && gs.gossip != nil
@@ -440,6 +440,17 @@ package pubsub
 //@        (forall i int :: 0 <= i && i < len(rpc.RPC.Control.Iwant) ==> rpc.RPC.Control.Iwant[i] != nil) &&
 //@        (forall i int :: 0 <= i && i < len(rpc.RPC.Control.Idontwant) ==> rpc.RPC.Control.Idontwant[i] != nil)
 //@   noframe
+//@   ensures every-control-handler-runs-once: old(rpc.RPC.Control) != nil ==>
+//@        calls((*GossipSubRouter).handleIHave) == old(calls((*GossipSubRouter).handleIHave)) + 1 && lastarg((*GossipSubRouter).handleIHave, 1) == old(rpc.from) && lastarg((*GossipSubRouter).handleIHave, 2) == old(rpc.RPC.Control) &&
+//@        calls((*GossipSubRouter).handleIWant) == old(calls((*GossipSubRouter).handleIWant)) + 1 && lastarg((*GossipSubRouter).handleIWant, 1) == old(rpc.from) && lastarg((*GossipSubRouter).handleIWant, 2) == old(rpc.RPC.Control) &&
+//@        calls((*GossipSubRouter).handleGraft) == old(calls((*GossipSubRouter).handleGraft)) + 1 && lastarg((*GossipSubRouter).handleGraft, 1) == old(rpc.from) && lastarg((*GossipSubRouter).handleGraft, 2) == old(rpc.RPC.Control) &&
+//@        calls((*GossipSubRouter).handlePrune) == old(calls((*GossipSubRouter).handlePrune)) + 1 && lastarg((*GossipSubRouter).handlePrune, 1) == old(rpc.from) && lastarg((*GossipSubRouter).handlePrune, 2) == old(rpc.RPC.Control) &&
+//@        calls((*GossipSubRouter).handleIDontWant) == old(calls((*GossipSubRouter).handleIDontWant)) + 1 && lastarg((*GossipSubRouter).handleIDontWant, 1) == old(rpc.from) && lastarg((*GossipSubRouter).handleIDontWant, 2) == old(rpc.RPC.Control)
+//@   ensures answered-iff-something-to-say: old(rpc.RPC.Control) != nil ==> calls((*GossipSubRouter).sendRPC) - old(calls((*GossipSubRouter).sendRPC)) ==
+//@        ite(len(lastret((*GossipSubRouter).handleIHave)) == 0 && len(lastret((*GossipSubRouter).handleIWant)) == 0 && len(lastret((*GossipSubRouter).handleGraft)) == 0, 0, 1)
+//@   at call rpcWithControl assert answer-carries-the-handlers-output: $arg0 == lastret((*GossipSubRouter).handleIWant) && len($arg1) == 0 && $arg2 == lastret((*GossipSubRouter).handleIHave) &&
+//@        len($arg3) == 0 && $arg4 == lastret((*GossipSubRouter).handleGraft) && len($arg5) == 0
+//@   at call sendRPC assert answer-to-the-sender: $arg1 == rpc.from && $arg2 == lastret(rpcWithControl) && !$arg3
 
 // ---- C11: splitting an oversized RPC (content conservation of the fields that are never broken up) ----
 //
